@@ -78,9 +78,9 @@ def run_parse(pendulum, s, opts):
         return observe(pendulum, pendulum.parse(s, now=NOW, **opts))
     except ValueError:
         return ("ValueError",)
-    except worker.Hang:
-        raise
-    except Exception as e:  # noqa: BLE001
+    except BaseException as e:  # noqa: BLE001  (a Rust panic is a BaseException: an escaping exception all the same)
+        if worker.is_control(e):
+            raise
         import traceback
         tb = traceback.extract_tb(e.__traceback__)
         where = f"{tb[-1].filename.split('/')[-1]}:{tb[-1].name}" if tb else "?"
